@@ -403,6 +403,15 @@ func (ex *Exec) stepCell(st *State, p *Ptr, depth int, c *Cell, s Step) *Cell {
 		return &Cell{V: ex.opaqueElem(c.Arr, s.Index)}
 	}
 	if c.Kids == nil {
+		if t, ok := c.V.(*sym.Term); ok && (t.Sort == sym.Fp || t.Sort == sym.Fn) {
+			// a limb of the canonical representative of an abstract ring element
+			return &Cell{V: limbOf(t, s.Index)}
+		}
+		if lv, ok := c.V.(*LimbVec); ok {
+			if i, ok := s.Index.Int64(); ok && i >= 0 && i < 4 {
+				return &Cell{V: lv.W[i]}
+			}
+		}
 		ex.fail("index into leaf cell at %s", p)
 		return &Cell{V: sym.Fresh(sym.Any, "abstraction-violated", 0)}
 	}
@@ -536,6 +545,30 @@ func (ex *Exec) storeAt(st *State, p *Ptr, depth int, c *Cell, nv *Cell) *Cell {
 		return &Cell{Arr: &a}
 	}
 	if c.Kids == nil {
+		// limb-wise write into an abstract ring element
+		if i, ok := s.Index.Int64(); ok && i >= 0 && i < 4 && depth+1 == len(p.Path) {
+			var lv LimbVec
+			switch x := c.V.(type) {
+			case *sym.Term:
+				if x.Sort != sym.Fp && x.Sort != sym.Fn {
+					ex.fail("index store into leaf cell at %s", p)
+					return c
+				}
+				lv.Sort = x.Sort
+				for k := range lv.W {
+					lv.W[k] = limbOf(x, sym.ConstI(int64(k)))
+				}
+			case *LimbVec:
+				lv = *x
+			default:
+				ex.fail("index store into leaf cell at %s", p)
+				return c
+			}
+			if w, ok := nv.V.(*sym.Term); ok {
+				lv.W[i] = w
+				return &Cell{V: lv.collapse()}
+			}
+		}
 		ex.fail("index store into leaf cell at %s", p)
 		return c
 	}
@@ -790,4 +823,58 @@ func MergeStates(c *sym.Term, a, b *State, guardLen int) *State {
 		n.mem[o] = mergeCell(c, a.cellOf(o), cb)
 	}
 	return n
+}
+
+// LimbVec is an abstract ring element that is being written limb by limb.
+type LimbVec struct {
+	Sort sym.Sort
+	W    [4]*sym.Term
+}
+
+func limbOf(t *sym.Term, idx *sym.Term) *sym.Term {
+	if t.IsConst() && t.C.Sign() == 0 {
+		return sym.ConstI(0)
+	}
+	// the limbs of an abstract (Montgomery-domain) cell are those of its machine
+	// representation, not of the canonical value
+	return sym.App(sym.Int, "limb", sym.App(sym.Int, "mont_of:"+t.Sort.String(), t), idx)
+}
+
+// collapse returns the ring term when the four limbs are the limbs of one element.
+func (lv LimbVec) collapse() Val {
+	allConst := true
+	for _, w := range lv.W {
+		if !w.IsConst() {
+			allConst = false
+		}
+	}
+	if allConst {
+		zero := true
+		for _, w := range lv.W {
+			if w.C.Sign() != 0 {
+				zero = false
+			}
+		}
+		if zero {
+			return sym.Const(lv.Sort, big.NewInt(0))
+		}
+	}
+	var base *sym.Term
+	for i, w := range lv.W {
+		if w.Op != "limb" || w.Args[0].Op != "mont_of:"+lv.Sort.String() {
+			c := lv
+			return &c
+		}
+		if k, ok := w.Args[1].Int64(); !ok || int(k) != i {
+			c := lv
+			return &c
+		}
+		if base == nil {
+			base = w.Args[0].Args[0]
+		} else if base != w.Args[0].Args[0] {
+			c := lv
+			return &c
+		}
+	}
+	return base
 }
